@@ -221,3 +221,14 @@ Theorem C05_source_cs_read_success_is_the_models : forall rf rp fo po k sx m h, 
     (st = SBDF_OK -> exists c sM, Slice.cs_read false None sx = Ok (c, sM) /\ Imp.lookup strm_var (vars fin) = Some (VBytes sM)).
 Proof. exact cs_read_success_is_the_models. Qed.
 Print Assumptions C05_source_cs_read_success_is_the_models.
+
+(* ... and the same for the table-slice reader with any column subset: an OK from the source's sbdf_ts_read means the L1 model's
+   ts_read accepts the stream with that subset and ends where the source ended *)
+Theorem C05_source_ts_read_success_is_the_models : forall rf rp fo po k sx m (h : ImpFactsCells.heap) tmb n sub, Forall byte sx -> (0 <= n <= 715827882)%Z ->
+  cell_get h tmb 1 = Some (VInt n) -> flags_in n sub m ->
+  (forall s1 s2, sec_read sx = Ok (3%Z, s1) -> read_int32 false s1 = Ok (n, s2) -> colsf_nobit sub (Z.to_nat n) 0 s2) ->
+  exists f0, forall f, (f0 <= f)%nat -> exists st fin,
+    callC prog_env f prog_sbdf_ts_read [VPtr rf fo; VCell tmb 0; sv sub; VPtr rp po] m k sx h = OReturn (VInt st) fin /\
+    (st = SBDF_OK -> exists t sM, Slice.ts_read false None n (msub sub 0) sx = Ok (t, sM) /\ Imp.lookup strm_var (vars fin) = Some (VBytes sM)).
+Proof. exact ts_read_success_is_the_models. Qed.
+Print Assumptions C05_source_ts_read_success_is_the_models.
